@@ -14,6 +14,7 @@ import (
 	"verif/mc/harness"
 	"verif/mc/props/pu"
 	"verif/mc/ref/gmrec"
+	"verif/mc/ref/gmref"
 	"verif/mc/tlsk"
 	"verif/mc/wire"
 )
@@ -618,11 +619,92 @@ func manyRecordsUnit(k int) harness.Unit {
 	}}
 }
 
+// seedSweepUnit: value-dependent steps of the key exchange (a shared ECDH coordinate or an SM2
+// ciphertext coordinate with a leading zero byte occurs about once in 256 / 128 handshakes) are
+// reached by running the SAME configuration under many deterministic random streams: seeds
+// lo..hi-1 for both endpoints. kind 0: TLS 1.2 ECDHE-ECDSA with P-256 forced, library on both ends
+// (keys must agree although client and server code differ); kind 1: the same with crypto/tls as
+// client; kind 2: crypto/tls as server; kind 3: GMSSL against the reference peer (which decrypts the
+// pre-master secret with its own SM2).
+func seedSweepUnit(kind, lo, hi int) harness.Unit {
+	names := []string{"tls12-ecdhe-p256/library-both", "tls12-ecdhe-p256/crypto-tls-client", "tls12-ecdhe-p256/crypto-tls-server", "gmssl/reference-client"}
+	return harness.Unit{Name: fmt.Sprintf("seed-sweep/%s/%d..%d", names[kind], lo, hi-1), Run: func(c *harness.Ctx) {
+		p := tlsk.Get()
+		for seed := lo; seed < hi; seed++ {
+			tag := fmt.Sprintf("%s, random streams seeded %d", names[kind], seed)
+			c.Add("executions", 1)
+			c.Add("transitions", 1)
+			c.DistinctS("states", tag)
+			app := [2]tlsk.App{{Writes: [][]byte{[]byte("ping")}, Expect: 4}, {Writes: [][]byte{[]byte("pong")}, Expect: 4}}
+			var cv, sv tlsk.View
+			var o *tlsk.Outcome
+			switch kind {
+			case 0, 1, 2:
+				libS := &gmtls.Config{Certificates: []gmtls.Certificate{p.ECDSA}, Time: tlsk.FixedTime, Rand: wire.NewRand(byte(seed)), MinVersion: 0x0303, MaxVersion: 0x0303,
+					CurvePreferences: []gmtls.CurveID{gmtls.CurveP256}, CipherSuites: []uint16{gmtls.TLS_ECDHE_ECDSA_WITH_AES_128_GCM_SHA256}}
+				libS.Rand = seededRand(seed, 1)
+				libC := &gmtls.Config{RootCAs: p.StdRootsG, ServerName: tlsk.ServerName, Time: tlsk.FixedTime, Rand: seededRand(seed, 2), MinVersion: 0x0303, MaxVersion: 0x0303,
+					CurvePreferences: []gmtls.CurveID{gmtls.CurveP256}, CipherSuites: []uint16{gmtls.TLS_ECDHE_ECDSA_WITH_AES_128_GCM_SHA256}}
+				switch kind {
+				case 0:
+					o = tlsk.Run(tlsk.GMEnd(libC, true, app[0], &cv, nil), tlsk.GMEnd(libS, false, app[1], &sv, nil), &cv, &sv, nil)
+				case 1:
+					stdC := &stdtls.Config{RootCAs: p.StdRoots, ServerName: tlsk.ServerName, Time: tlsk.FixedTime, MinVersion: 0x0303, MaxVersion: 0x0303, CurvePreferences: []stdtls.CurveID{stdtls.CurveP256}}
+					o = tlsk.Run(tlsk.StdEnd(stdC, true, app[0], &cv), tlsk.GMEnd(libS, false, app[1], &sv, nil), &cv, &sv, nil)
+				case 2:
+					stdS := &stdtls.Config{Certificates: []stdtls.Certificate{stdCert(p.ECDSA)}, Time: tlsk.FixedTime, MinVersion: 0x0303, MaxVersion: 0x0303, CurvePreferences: []stdtls.CurveID{stdtls.CurveP256}}
+					o = tlsk.Run(tlsk.GMEnd(libC, true, app[0], &cv, nil), tlsk.StdEnd(stdS, false, app[1], &sv), &cv, &sv, nil)
+				}
+				if o.C.Panic != nil || o.S.Panic != nil || len(o.Stuck) > 0 || !o.C.Complete || !o.S.Complete || string(o.S.Read) != "ping" || string(o.C.Read) != "pong" {
+					c.Violate("seed-sweep:"+names[kind], fmt.Sprintf("[%s] correctly configured peers do not complete and exchange data: %s", tag, o.Describe()), nil, tag)
+				}
+			case 3:
+				suite := []uint16{cbc, gcm}[seed%2]
+				sc := &gmtls.Config{GMSupport: &gmtls.GMSupport{}, Certificates: []gmtls.Certificate{p.Sign, p.Enc}, Time: tlsk.FixedTime, Rand: seededRand(seed, 3), CipherSuites: []uint16{suite}}
+				ro := tlsk.RunLibVsRef(sc, false, tlsk.LibApp(false), gmref.Identity{}, byte(seed), func(q *gmref.Peer) { q.Suites = []uint16{suite}; q.Rand = seededRand(seed, 4) }, &gmref.Script{Data: tlsk.PingPong(true)}, nil)
+				if ro.Lib.Panic != nil || ro.LibStuck || !ro.Lib.Complete || !ro.Ref.Res.Completed {
+					c.Violate("seed-sweep:"+names[kind], fmt.Sprintf("[%s] library server and reference client do not complete: %s", tag, ro.Describe()), nil, tag)
+				}
+				// and the library as client, encrypting the pre-master secret for the reference server
+				cc := &gmtls.Config{GMSupport: &gmtls.GMSupport{}, RootCAs: p.Roots, ServerName: tlsk.ServerName, Time: tlsk.FixedTime, Rand: seededRand(seed, 5), CipherSuites: []uint16{suite}}
+				ro = tlsk.RunLibVsRef(cc, true, tlsk.LibApp(true), tlsk.ServerIdentity(), byte(seed), func(q *gmref.Peer) { q.Suites = []uint16{suite}; q.Rand = seededRand(seed, 6) }, &gmref.Script{Data: tlsk.PingPong(false)}, nil)
+				if ro.Lib.Panic != nil || ro.LibStuck || !ro.Lib.Complete || !ro.Ref.Res.Completed {
+					c.Violate("seed-sweep:gmssl/reference-server", fmt.Sprintf("[%s] library client and reference server do not complete: %s", tag, ro.Describe()), nil, tag)
+				}
+			}
+		}
+		c.Sample(fmt.Sprintf("%s with random streams seeded %d..%d", names[kind], lo, hi-1))
+	}}
+}
+
+// seededRand is a deterministic stream distinct for every (seed, role).
+func seededRand(seed, role int) *seedStream {
+	return &seedStream{x: uint64(seed)*1000003 + uint64(role)*7919 + 1}
+}
+
+type seedStream struct {
+	mu sync.Mutex
+	x  uint64
+}
+
+func (s *seedStream) Read(p []byte) (int, error) {
+	s.mu.Lock()
+	defer s.mu.Unlock()
+	for i := range p {
+		s.x += 0x9e3779b97f4a7c15
+		z := s.x
+		z = (z ^ (z >> 30)) * 0xbf58476d1ce4e5b9
+		z = (z ^ (z >> 27)) * 0x94d049bb133111eb
+		p[i] = byte(z ^ (z >> 31))
+	}
+	return len(p), nil
+}
+
 // Prop registers C06.
 var Prop = &harness.Prop{
 	ID:          "C06",
 	Level:       "model_checking",
-	Rule:        "configuration space enumerated as a product: server mode {GMSSL-only, auto-switch, TLS-only, Go crypto/tls server} x client {library GMSSL client, library TLS client, Go crypto/tls client} x client/server suite lists (9 each incl. ECDHE-only and mixed orders) x PreferServerCipherSuites x 5 ClientAuth policies x client certificate {absent, trusted, untrusted} x certificates static / callbacks x tickets on/off x TLS versions {default, 1.0, 1.1, 1.2} x {ECDSA, RSA} server certificate; each configuration runs real endpoints over the deterministic wire; a 60-line negotiation model predicts complete/must-fail, version and suite; both ends' ConnectionState, exported keying material, peer certificates and delivered bytes are compared; every captured GMSSL session is decoded by an independent GM/T 0024 record/PRF/Finished implementation (master secret re-derived from the pre-master secret decrypted with the reference SM2). Active reference peer: the library in each role against gmref (an independent GM/T 0024 endpoint) for both suites x GMSSL-only/auto-switch x 5 ClientAuth policies x client certificate present/absent x the peer's handshake messages cut into records of 1, 7, 100 bytes or unfragmented; both complete exactly when the policy allows, gmref verifies the library's ServerKeyExchange / CertificateVerify signatures and Finished, 3 KB / 70 KB payloads arrive intact. Payload sizes 2^k-72..2^k+8 (k = 9..14) in each direction between the library and the reference peer. Long connections: 600 small writes in each direction (more than 512 protected records per direction) for both GMSSL suites (independently decoded) and for TLS 1.2 / TLS 1.0 against crypto/tls in each role. Data phase: all write sequences up to the depth over 8 sizes x 2 directions with reader buffers {1,7,4096}. states = distinct configurations; transitions = sessions.",
+	Rule:        "configuration space enumerated as a product: server mode {GMSSL-only, auto-switch, TLS-only, Go crypto/tls server} x client {library GMSSL client, library TLS client, Go crypto/tls client} x client/server suite lists (9 each incl. ECDHE-only and mixed orders) x PreferServerCipherSuites x 5 ClientAuth policies x client certificate {absent, trusted, untrusted} x certificates static / callbacks x tickets on/off x TLS versions {default, 1.0, 1.1, 1.2} x {ECDSA, RSA} server certificate; each configuration runs real endpoints over the deterministic wire; a 60-line negotiation model predicts complete/must-fail, version and suite; both ends' ConnectionState, exported keying material, peer certificates and delivered bytes are compared; every captured GMSSL session is decoded by an independent GM/T 0024 record/PRF/Finished implementation (master secret re-derived from the pre-master secret decrypted with the reference SM2). Active reference peer: the library in each role against gmref (an independent GM/T 0024 endpoint) for both suites x GMSSL-only/auto-switch x 5 ClientAuth policies x client certificate present/absent x the peer's handshake messages cut into records of 1, 7, 100 bytes or unfragmented; both complete exactly when the policy allows, gmref verifies the library's ServerKeyExchange / CertificateVerify signatures and Finished, 3 KB / 70 KB payloads arrive intact. Payload sizes 2^k-72..2^k+8 (k = 9..14) in each direction between the library and the reference peer. Seed sweeps: the same configuration under 1536 (thorough 6144) deterministic random streams for TLS 1.2 ECDHE P-256 between two library endpoints and a quarter of that against crypto/tls in each role and for GMSSL against the reference peer in each role, so that value-dependent steps of the key exchange (coordinates with leading zero bytes, about 1 in 256) occur several times. Long connections: 600 small writes in each direction (more than 512 protected records per direction) for both GMSSL suites (independently decoded) and for TLS 1.2 / TLS 1.0 against crypto/tls in each role. Data phase: all write sequences up to the depth over 8 sizes x 2 directions with reader buffers {1,7,4096}. states = distinct configurations; transitions = sessions.",
 	Assumptions: []string{"Go's crypto/tls is the independent implementation for TLS 1.0-1.2 (both roles)", "gmrec (independent decoder) is built on refsm2/3/4; it covers the two ECC suites", "the ECDHE-SM2 suites are not implemented by the library: the model never predicts them as an outcome"},
 	Bounds: func(tier string) string {
 		if tier == "thorough" {
@@ -648,6 +730,16 @@ var Prop = &harness.Prop{
 		}
 		for k := 0; k < 6; k++ {
 			u = append(u, manyRecordsUnit(k))
+		}
+		nseed, step := 1536, 96
+		if full {
+			nseed = 6144
+		}
+		for lo := 0; lo < nseed; lo += step {
+			u = append(u, seedSweepUnit(0, lo, lo+step))
+		}
+		for lo := 0; lo < nseed/4; lo += step {
+			u = append(u, seedSweepUnit(1, lo, lo+step), seedSweepUnit(2, lo, lo+step), seedSweepUnit(3, lo, lo+step))
 		}
 		depth, dparts := 2, 4
 		if full {
